@@ -94,6 +94,34 @@ func TestCheck(t *testing.T) {
 			run.Fatal(caseID + ": target: " + err.Error())
 			return
 		}
+		if i%3 == 1 && len(tgtNIs) > 1 {
+			// a target whose history contains a Flush of one instance: an instance that nothing
+			// outside it refers to (the RIBs stay reference-closed) is flushed - its own entries
+			// may well have referred to groups of other instances - and programmed again
+			x := tgtNIs[1+r.Intn(len(tgtNIs)-1)]
+			referenced := false
+			for ni, m := range contents(target) {
+				if ni == x {
+					continue
+				}
+				for _, v := range m {
+					if strings.Contains(v, fmt.Sprintf("nexthopgroupnetworkinstance:%q", x)) {
+						referenced = true
+					}
+				}
+			}
+			if !referenced {
+				if err := target.Flush([]string{x}); err != nil {
+					run.Fatal(caseID + ": flush of the target's " + x + ": " + err.Error())
+					return
+				}
+				if err := build(target, g.Closed(tgtNIs, 0.2)); err != nil {
+					run.Fatal(caseID + ": target after flush: " + err.Error())
+					return
+				}
+				run.Count("targets_with_a_flushed_instance_in_their_history", 1)
+			}
+		}
 		var trace []string
 		var tgt reconciler.RIBTarget = reconciler.NewLocalRIB(target)
 		via := "local"
